@@ -189,7 +189,7 @@ StepOK(pre, ev, post) ==
     /\ C07_LpSupply(pre, ev, post)
     /\ C07_Allowances(pre, ev, post)
     /\ C07_FailedUnchanged(pre, ev, post)
-    /\ C09_Funds(pre, ev, post)
+    /\ C09_Funds(pre, ev, post) /\ C09_Credit(pre, ev, post)
     /\ C10_Swap(pre, ev)
     /\ C14_Auth(pre, ev, post)
     /\ C15_Provide(pre, ev)
